@@ -5,16 +5,16 @@ import sys
 
 PLAN = {
     # property: (engine, quick runs, thorough runs)
-    'C04': ('catsim', 40000, 600000),
-    'C05': ('rngsim', 30000, 400000),
-    'C06': ('rngsim', 30000, 400000),
-    'C10': ('fcsim', 20000, 300000),
-    'C11': ('gridsim', 30000, 500000),
-    'C13': ('fcsim', 20000, 300000),
-    'C14': ('persistsim', 30000, 500000),
-    'C16': ('rngsim', 30000, 400000),
-    'C18': ('persistsim', 12000, 200000),
-    'C20': ('permsim', 20000, 300000),
+    'C04': ('catsim', 40000, 300000),
+    'C05': ('rngsim', 30000, 150000),
+    'C06': ('rngsim', 30000, 200000),
+    'C10': ('fcsim', 20000, 150000),
+    'C11': ('gridsim', 30000, 300000),
+    'C13': ('fcsim', 20000, 150000),
+    'C14': ('persistsim', 30000, 300000),
+    'C16': ('rngsim', 30000, 150000),
+    'C18': ('persistsim', 12000, 100000),
+    'C20': ('permsim', 20000, 200000),
 }
 
 
